@@ -137,6 +137,17 @@ func ps(params [][]int) int {
 	if len(params) > 0 {
 		ps = params[0][0]
 	}
+	return clampParam(ps)
+}
+
+// maxParam is the largest parameter value we act on. Like xterm, larger
+// values (and values that overflowed while parsing) are limited to it
+const maxParam = 65535
+
+func clampParam(ps int) int {
+	if ps < 0 || ps > maxParam {
+		return maxParam
+	}
 	return ps
 }
 
